@@ -705,8 +705,18 @@ static void run_case(CaseCtx& c)
             }
             M = SparseMatrixCSR<double>(n, n, v, cj, rs);
         }
-        else
+        else {
+            // copy assignment over a matrix that already holds another system of the same shape and the same number of
+            // entries, distributed differently over the rows (the row layout of the target must not survive)
+            if (n >= 2 && rng.coin(0.6)) {
+                std::vector<std::tuple<int, int, double>> t;
+                for (int i = 0; i < n; i++)
+                    for (auto& e : rows[(i + 1) % n])
+                        t.emplace_back(i, e.first, -e.second);
+                M = SparseMatrixCSR<double>(n, n, t);
+            }
             M = assembled;
+        }
         // container read-back
         bool ok = M.rows() == n && M.columns() == n && M.non_zero_size() == (int)nnz;
         for (int i = 0; ok && i < n; i++) {
